@@ -13,6 +13,7 @@ PART = {
                 "whose bytes differ from the previous image (non-trivial by definition), checked offline with fresh objects; torn prefixes (1/2, len-1) are synthesized only for "
                 "files observed to be rewritten in place; distinct = (crash window label derived from what changed on disk, set of changed files). A subset (quick 10 per case "
                 "covering the hook names, thorough all) is restarted in a grand-child process (NewDrandDaemon + LoadBeaconsFromDisk) against the still running network. "
+                "The order of directory-entry events (inotify) of the victim's groups/ folder additionally yields the file sets that existed between un-hooked operations. "
                 "Separately 240 writer runs under strace SIGKILL injection (beacon Put loop / dkg SaveFinished loop x pwrite64|fdatasync x N=1..60); non-trivial = the writer was killed.",
         "assumptions": [
             "process death, not power loss: the page cache survives, so a file-system copy taken while no write of the victim is in flight is the image a kill -9 leaves",
@@ -30,7 +31,7 @@ PART = {
                 "transition round, identity comparisons and progress checkpoints; distinct by (scenario, variant, offset to the transition | checkpoint).",
         "assumptions": [
             "bounded progress is counted in beacon periods of the paced fake clock; a stall is inconclusive unless the chain has not moved after a further 90 s",
-            "a success answer to a leaver's partial counts as acceptance only if the receiver had not stored that round and had stored the last pre-transition round a full period earlier",
+            "a success answer to a leaver's partial counts as acceptance only if the receiver had not stored that round and had stored the last pre-transition round at least half a period earlier",
         ],
     },
 }
